@@ -217,9 +217,35 @@ func (w *world) buildPlain(q Query) []built {
 	if q.Render {
 		tSel += " " + bf + " { _docID n }"
 	}
-	anyHolder := func(t *mdoc, op string, v int) bool {
+	// second condition inside the relation block (on the related document's name)
+	nameCond := func(relatedCol int) (string, func(*mdoc) bool) {
+		all := w.docs[relatedCol]
+		if q.NameOp == "" || len(all) == 0 || len(q.Names) == 0 {
+			return "", func(*mdoc) bool { return true }
+		}
+		set := map[string]bool{}
+		var lits []string
+		for _, i := range q.Names {
+			nm := all[i%len(all)].name
+			if !set[nm] {
+				set[nm] = true
+				lits = append(lits, strconv.Quote(nm))
+			}
+		}
+		first := all[q.Names[0]%len(all)].name
+		switch q.NameOp {
+		case "_eq":
+			return fmt.Sprintf(", name: {_eq: %q}", first), func(d *mdoc) bool { return d.name == first }
+		case "_ne":
+			return fmt.Sprintf(", name: {_ne: %q}", first), func(d *mdoc) bool { return d.name != first }
+		case "_in":
+			return ", name: {_in: [" + strings.Join(lits, ", ") + "]}", func(d *mdoc) bool { return set[d.name] }
+		}
+		return ", name: {_nin: [" + strings.Join(lits, ", ") + "]}", func(d *mdoc) bool { return !set[d.name] }
+	}
+	anyHolder := func(t *mdoc, op string, v int, nameOK func(*mdoc) bool) bool {
 		for _, d := range w.holders(k, t.id) {
-			if holds(op, d.n, v) {
+			if holds(op, d.n, v) && nameOK(d) {
 				return true
 			}
 		}
@@ -228,7 +254,14 @@ func (w *world) buildPlain(q Query) []built {
 	switch kind {
 	case "hf", "hor", "cnthf":
 		b := built{class: "filter-from-holder", root: H, q: q, rel: k, fromTo: true, hasWant: defined, keyPath: keyPath, desc: desc, orderReq: q.OwnOrder > 0, invertible: kind != "hor"}
-		filter := fmt.Sprintf("{%s%s: {n: %s}}", ownPart, rf, cond(q.Op, q.V))
+		extra, nameOK := "", func(*mdoc) bool { return true }
+		if kind != "hor" {
+			extra, nameOK = nameCond(r.To)
+		}
+		if extra != "" {
+			b.class = "two-condition-" + b.class
+		}
+		filter := fmt.Sprintf("{%s%s: {n: %s%s}}", ownPart, rf, cond(q.Op, q.V), extra)
 		if kind == "hor" {
 			b.class = "or-filter-from-holder"
 			filter = fmt.Sprintf("{_or: [{n: %s}, {%s: {n: %s}}]}", cond(q.Op2, q.V2), rf, cond(q.Op, q.V))
@@ -237,7 +270,7 @@ func (w *world) buildPlain(q Query) []built {
 			b.want = []any{}
 			for _, d := range w.live(r.From) {
 				t := w.target(d)
-				rel := t != nil && holds(q.Op, t.n, q.V)
+				rel := t != nil && holds(q.Op, t.n, q.V) && nameOK(t)
 				ok := rel && ownOK(d)
 				if kind == "hor" {
 					ok = rel || holds(q.Op2, d.n, q.V2)
@@ -260,7 +293,14 @@ func (w *world) buildPlain(q Query) []built {
 		return []built{b}
 	case "tf", "tor", "cnttf":
 		b := built{class: "filter-from-related", root: T, q: q, rel: k, hasWant: defined, keyPath: keyPath, desc: desc, orderReq: q.OwnOrder > 0, invertible: kind != "tor"}
-		filter := fmt.Sprintf("{%s%s: {n: %s}}", ownPart, bf, cond(q.Op, q.V))
+		extra, nameOK := "", func(*mdoc) bool { return true }
+		if kind != "tor" {
+			extra, nameOK = nameCond(r.From)
+		}
+		if extra != "" {
+			b.class = "two-condition-" + b.class
+		}
+		filter := fmt.Sprintf("{%s%s: {n: %s%s}}", ownPart, bf, cond(q.Op, q.V), extra)
 		if kind == "tor" {
 			b.class = "or-filter-from-related"
 			filter = fmt.Sprintf("{_or: [{n: %s}, {%s: {n: %s}}]}", cond(q.Op2, q.V2), bf, cond(q.Op, q.V))
@@ -268,7 +308,7 @@ func (w *world) buildPlain(q Query) []built {
 		if defined {
 			b.want = []any{}
 			for _, t := range w.live(r.To) {
-				rel := anyHolder(t, q.Op, q.V)
+				rel := anyHolder(t, q.Op, q.V, nameOK)
 				ok := rel && ownOK(t)
 				if kind == "tor" {
 					ok = rel || holds(q.Op2, t.n, q.V2)
@@ -895,6 +935,7 @@ func (w *world) predictPlan(b built) planInfo {
 	}
 	switch b.class {
 	case "filter-from-holder", "filter-from-related", "count-filter-from-holder", "count-filter-from-related",
+		"two-condition-filter-from-holder", "two-condition-filter-from-related",
 		"relation-filter-with-filtered-sub-selection":
 		return planInfo{invertedByFilter: true}
 	case "order-from-holder", "order-from-related":
